@@ -4,5 +4,6 @@ CONSTANTS
   Sizes <- S3
   Cuts <- CutsSmall
   PersistentReader = FALSE
+  BreakAllowed = FALSE
 INVARIANT Emit
 CHECK_DEADLOCK FALSE
